@@ -10,6 +10,9 @@ import json, os, re, shutil, subprocess, sys, time, hashlib, glob
 
 ROOT = os.path.dirname(os.path.dirname(os.path.abspath(__file__)))
 REPO = os.environ.get("VERIF_REPO", "/repo")
+# evidence and replays of the registered checks (run against /repo) live in /verif; a run against a scratch
+# worktree (seeded changes) must not overwrite them
+OUTROOT = ROOT if os.path.realpath(REPO) == "/repo" else os.path.join(ROOT, ".work", "scratchrun")
 SPEC = os.path.join(ROOT, "spec")
 WORK = os.path.join(ROOT, ".work")
 NCPU = os.cpu_count() or 4
@@ -363,12 +366,12 @@ def finish(ctx, level="model_checking"):
     rc = 0
     if uniq:
         rc = 1
-        os.makedirs(os.path.join(ROOT, "replays"), exist_ok=True)
+        os.makedirs(os.path.join(OUTROOT, "replays"), exist_ok=True)
         for key, a in uniq.items():
             rp = a.get("replay")
             if not rp:
                 h = hashlib.sha1(key.encode()).hexdigest()[:10]
-                rp = os.path.join(ROOT, "replays", "%s-%s.json" % (ctx.prop, h))
+                rp = os.path.join(OUTROOT, "replays", "%s-%s.json" % (ctx.prop, h))
                 with open(rp, "w") as fh:
                     json.dump({"property": ctx.prop, "seed": ctx.seed, "tier": ctx.tier, "signature": a["sig"],
                                "what": a["text"]}, fh, indent=1)
@@ -397,8 +400,8 @@ def finish(ctx, level="model_checking"):
     ev["coverage"].update(ctx.extra)
     if rc == 2:
         ev["coverage"]["inconclusive"] = [m[:500] for m in ctx.inconclusive]
-    os.makedirs(os.path.join(ROOT, "evidence"), exist_ok=True)
-    with open(os.path.join(ROOT, "evidence", ctx.prop + ".json"), "w") as fh:
+    os.makedirs(os.path.join(OUTROOT, "evidence"), exist_ok=True)
+    with open(os.path.join(OUTROOT, "evidence", ctx.prop + ".json"), "w") as fh:
         json.dump(ev, fh, indent=1)
     print("[%s] done rc=%d states=%d transitions=%d traces=%d wall=%.1fs" % (
         ctx.prop, rc, ctx.states, ctx.transitions, ctx.traces, time.time() - ctx.t0))
